@@ -106,7 +106,9 @@ def shard(shard_no, nshards, seed, tier, extra):
         res.count("real_contracts")
     for i in range(n):
         r = rng.random()
-        if r < 0.55:
+        if r < 0.15:
+            code, feats = progs.typed_widths(rng)
+        elif r < 0.55:
             code, feats = progs.mask_shift(rng)
         elif r < 0.7:
             gt = layoutgen.random_ground_truth(rng, nvars=rng.randint(1, 6))
@@ -138,7 +140,9 @@ def run(tier, seed, t0):
         "mask-and-shift code over a few slots (SHR/SAR/SHL/DIV then AND, AND with shifted masks, read-modify-write with "
         "MUL 2^k or SHL, nested ORs) with shift amounts from {0..255, 256, 257, 300, 511, 2^16, 2^64-1, 2^64, 2^255, "
         "2^256-1} and mask widths 1..256 bits; ground-truth layouts; look-alike hashing; read-mask-write programs; "
-        "byte-mutated real contracts. distinct = bytecode; non-trivial = layout with >= 2 entries or a sub-slot entry",
+        "byte-mutated real contracts; whole-word values whose width comes from a constant (SIGNEXTEND size in either "
+        "operand position, *COPY lengths, BYTE index, masks; constants 0..2^256-1) stored directly or as mapping / "
+        "array elements. distinct = bytecode; non-trivial = layout with >= 2 entries or a sub-slot entry",
         t0, ["widths are taken from the reported type (bytesN, uintN, address, bool, ...); unknown widths are not judged"],
         min_judged=100)
 
